@@ -52,6 +52,8 @@ Allowed(o, k) ==
          ELSE IF s.st = "BAD" THEN {BadTypeCode}
          ELSE IF o.svc \in FindSvc /\ IsPending(v) /\ s.ds # "ds" THEN {UnencCodeOf(o.svc)}
          ELSE IF Sub(o) /\ v = Success THEN {Success, WarnSub, FailAllSub}
+         \* N-CREATE without an instance UID in the request: Success needs the UID from the handler's dataset
+         ELSE IF o.svc = "NCREATE0" /\ v = Success THEN {Success, 272}
          ELSE IF o.svc \notin (GeneratorSvc \cup {"ECHO", "STORE", "SUBSTORE", "NDELETE"}) /\ s.ds = "unenc" /\ v \in {Success, WarnGen}
               THEN {UnencCodeOf(o.svc)}
          ELSE {v}
